@@ -510,13 +510,15 @@ fn transient_case(g: &mut Gen, cfg: &PicCfg) -> Verdict {
         let mut tries = 0;
         loop {
             let before = last_digest(&st);
-            let seen = transients.get();
             let o = decode_call(&mut st, &mut rf);
             match o {
                 Outcome::Ok => break,
                 Outcome::Panic(p) => return Verdict::fail(format!("decode call {} panicked over a source with transient failures: {}", i, p)),
                 Outcome::Err(e) => {
-                    if transients.get() == seen {
+                    // every failure of the source may surface in one failed call (at once, or -
+                    // for a reader that reads ahead - in a later one); a failed call that no
+                    // source failure accounts for is the decoder's own
+                    if transients.get() <= failures {
                         return Verdict::fail(format!(
                             "decode call for picture {} failed ({}) although its source delivered every byte it was asked for ({} earlier transient failures, all followed by a successful retry)",
                             i, e, failures
